@@ -64,12 +64,12 @@ theorem sabaStepOps_unsafe (c : SabaConfig) (hs : c.safe = false) (g : Flags)
     (hg : g.allocated = true) :
     sabaStepOps c g =
       ([.sabaInit (c.type ≥ 0x100), .init] ++ (if g.recalc then [Prim.fromInertial] else []) ++
-        sabaDrift c g.isSync ++ sabaTail c ++ [.advT (.frac 1 1)],
+        sabaDrift c (g.isSync || (g.recalc && c.p1fix)) ++ sabaTail c ++ [.advT (.frac 1 1)],
        { isSync := false, recalc := false, allocated := true }) := by
   obtain ⟨isSync, recalc, allocated⟩ := g
   simp only at hg; subst hg
-  cases isSync <;> cases recalc <;>
-    simp [sabaStepOps, sabaPart1Ops, sabaPart2Ops, hs, initF, sabaDrift, sabaTail, List.append_assoc]
+  cases isSync <;> cases recalc <;> cases hp : c.p1fix <;>
+    simp [sabaStepOps, sabaPart1Ops, sabaPart2Ops, hs, hp, initF, sabaDrift, sabaTail, List.append_assoc]
 
 theorem sabaStepOps_initF (c : SabaConfig) (f : Flags) : sabaStepOps c (initF f) = sabaStepOps c f := by
   unfold sabaStepOps sabaPart1Ops; rw [initF_idem]
@@ -84,13 +84,14 @@ theorem saba_step_pj_determined (c : SabaConfig) (hs : c.safe = false) (g : Flag
     closed_append (closed_append (closed_sabaDrift c b) (closed_sabaTail c)) (closed_advT _)
   cases hi : g.isSync
   · have hr' := hr hi
-    simp only [hr', if_false, Bool.false_eq_true, List.append_nil]
+    simp only [hr', if_false, Bool.false_eq_true, List.append_nil, Bool.false_and, Bool.or_self]
     have := (closed_append (closed_sabaInit (decide (c.type ≥ 0x100))) (tailc false)).pj (L := ⟨true, false, false, false, false, false⟩) rfl
     simpa [List.append_assoc] using this
   · have e : ∀ l : List Prim, [Prim.sabaInit (decide (c.type ≥ 0x100)), Prim.init] ++ l ++ sabaDrift c true ++ sabaTail c ++
         [Prim.advT (.frac 1 1)] = ([Prim.sabaInit (decide (c.type ≥ 0x100)), Prim.init] ++ l) ++
         (sabaDrift c true ++ sabaTail c ++ [Prim.advT (.frac 1 1)]) := by
       intro l; simp [List.append_assoc]
+    simp only [Bool.true_or]
     rw [e, transferList_append]
     apply (tailc true).pj
     cases g.recalc <;> simp [transferList, transfer]
